@@ -1,4 +1,5 @@
 import Bxh.Proofs.ExecLemmas
+import Bxh.Proofs.ExecSupply
 /-!
 # C14 — transfers and fees never create value
 Theorems about `transfer`, `payGasFee`, `payLeftAsGasFee`, `payAdmins` of `Bxh.Exec`
@@ -134,5 +135,47 @@ theorem C14_payGasFee_sender_nonneg (cfg : Cfg) (l l' : Led) (s : String) (g : N
     rw [key cfg.admins _ hs]
     simp [getBal_setBal]
     omega
+
+-- ------------------------------------------------------------------------------------ block and history level
+/-- **over any block the sum of the balances does not grow** (and no balance becomes negative): for every block — transfers of
+any amount, IBTPs and contract calls that succeed or fail at any stage, fee payments that succeed or fall back to the
+sender's whole balance, the timeout bookkeeping — and every list of distinct accounts that contains the senders of the
+block's transactions (value may leave the list towards other receivers or admins, it never enters it from nowhere) -/
+theorem C14_block_no_value_created (cfg : Cfg) (n : Node) (txs : List (Tx × Bool)) (accts : List String)
+    (hnd : accts.Nodup) (hs : ∀ p ∈ txs, p.1.sender ∈ accts) (hn : NonNeg n.led) :
+    Exec.total (execBlock cfg n txs).1.led accts ≤ Exec.total n.led accts ∧ NonNeg (execBlock cfg n txs).1.led :=
+  execBlock_total cfg n txs accts hnd hs hn
+
+/-- a chain of blocks -/
+def runBlocks (cfg : Cfg) (n : Node) (blocks : List (List (Tx × Bool))) : Node :=
+  blocks.foldl (fun n b => (execBlock cfg n b).1) n
+
+/-- **and over any history of blocks** -/
+theorem C14_history_no_value_created (cfg : Cfg) (blocks : List (List (Tx × Bool))) (n : Node) (accts : List String)
+    (hnd : accts.Nodup) (hs : ∀ b ∈ blocks, ∀ p ∈ b, p.1.sender ∈ accts) (hn : NonNeg n.led) :
+    Exec.total (runBlocks cfg n blocks).led accts ≤ Exec.total n.led accts ∧ NonNeg (runBlocks cfg n blocks).led := by
+  unfold runBlocks
+  induction blocks generalizing n with
+  | nil => exact ⟨Int.le_refl _, hn⟩
+  | cons b rest ih =>
+    simp only [List.foldl_cons]
+    obtain ⟨h1, h2⟩ := execBlock_total cfg n b accts hnd (hs b (List.mem_cons_self ..)) hn
+    obtain ⟨h3, h4⟩ := ih (execBlock cfg n b).1 (fun b' hb' => hs b' (List.mem_cons_of_mem _ hb')) h2
+    exact ⟨Int.le_trans h3 h1, h4⟩
+
+/-- the two notions of total in this file agree -/
+theorem total_eq (l : Led) (accts : List String) : Exec.total l accts = total l accts := rfl
+
+/-- non-vacuity: a block with a transfer, a self-transfer, a negative amount, a transfer that cannot pay its fee and
+a failing contract call, over all accounts involved -/
+example :
+    let l : Led := { bal := [("u0", 1000000), ("u1", 30000), ("adm0", 5), ("adm1", 5), ("adm2", 5), ("adm3", 5)] }
+    let n : Node := { led := l, height := 6 }
+    let txs : List (Tx × Bool) := [(.xfer "u0" "u1" (some 7), true), (.xfer "u0" "u0" (some 5), true), (.xfer "u0" "u1" (some (-3)), true),
+                                   (.xfer "u1" "u0" (some 20000), true), (.bvm "u0" "txmgr" "GetStatus" [], false)]
+    let accts := ["u0", "u1", "adm0", "adm1", "adm2", "adm3"]
+    -- the fourth transaction cannot pay its fee: reverted, u1's whole balance (30007) goes to the four admins, 3 units of rounding are lost
+    Exec.total l accts = 1030020 ∧ Exec.total (execBlock {} n txs).1.led accts = 1030017 ∧ (execBlock {} n txs).1.led.getBal "u1" = 0 := by
+  decide
 
 end Bxh.Props.C14
